@@ -182,18 +182,26 @@ class World:
               for a in self.atts]
         return [og, on, oa]
 
-    # -- identity-level aliasing of mutable per-node data between distinct nodes (C14)
+    # -- identity-level aliasing of mutable per-node data between distinct nodes (C14), nested containers included
     def aliased(self):
         seen = {}
         out = []
+        def walk(v, i, path):
+            if isinstance(v, (dict, list)):
+                if id(v) in seen and seen[id(v)][0] != i:
+                    out.append([seen[id(v)][0], seen[id(v)][1], i, path])
+                seen.setdefault(id(v), (i, path))
+                items = v.items() if isinstance(v, dict) else enumerate(v)
+                for k, x in items:
+                    walk(x, i, path + '.' + str(k))
         for i, n in enumerate(self.nodes):
-            for f in ('children', 'parents', 'compromised_by', 'tags', 'extras', 'ttc'):
+            for f in ('children', 'parents', 'compromised_by'):
                 v = getattr(n, f)
-                if v is None:
-                    continue
                 if id(v) in seen and seen[id(v)][0] != i:
                     out.append([seen[id(v)][0], seen[id(v)][1], i, f])
                 seen.setdefault(id(v), (i, f))
+            for f in ('tags', 'extras', 'ttc'):
+                walk(getattr(n, f), i, f)
         return out
 
 
